@@ -1010,6 +1010,8 @@ package go9p
 //@   at call((*Error).Error) ensures len(ret) <= 65535
 //@   at call(error.Error) ensures len(ret) <= 65535
 //@   at call(fmt.Sprintf) ensures len(ret) <= 65535
+// whatever the text, what is handed to Respond is a packed Rerror (a text that does not fit is cut)
+//@   at call((*SrvReq).Respond) requires [C03 C06 C12 packed] !deref(Akaros) && len(req.Rc.Buf) >= 22 ==> req.Rc.Type == 107 && len(req.Rc.Pkt) >= 9 && len(req.Rc.Pkt) <= len(req.Rc.Buf) && u8(req.Rc.Pkt, 4) == 107
 //@   assigns  everything
 
 //@ func (*SrvReq).Respond(req)
@@ -1493,6 +1495,7 @@ package go9p
 //@   at call(SetRreadCount)#2 requires [C15 window] isdir && !deref(Akaros) && entrybound(fid, old(req.Tc.Offset)) ==> entrybound(fid, old(req.Tc.Offset) + arg1)
 //@   at call(SetRreadCount)#2 requires [C15 progress] isdir && !deref(Akaros) && arg1 == 0 ==> old(req.Tc.Offset) >= len(fid.dirents)
 //@   at call(SetRreadCount)#2 requires [C15 data] isdir ==> old(req.Tc.Offset) + arg1 <= len(fid.dirents) && (forall k int :: 0 <= k && k < arg1 ==> rc.Data[k] == fid.dirents[old(req.Tc.Offset) + k])
+//@   at call((*SrvReq).RespondError)#5 requires [C15 toosmall0] isdir ==> old(req.Tc.Offset) < len(fid.dirents) && count == 0
 //@   at call((*SrvReq).RespondError)#5 requires [C15 toosmall] isdir && entrybound(fid, old(req.Tc.Offset)) ==> (forall j int :: 0 <= j && j < len(fid.direntends) && old(req.Tc.Offset) < fid.direntends[j] ==> old(req.Tc.Offset) + old(req.Tc.Count) < fid.direntends[j])
 //@   loop 1
 //@     invariant 0 <= i && i <= len(fid.dirs) && reqwf(req) && nolocks() && fid != nil && rc == req.Rc && rc != nil && tc == req.Tc
